@@ -38,7 +38,7 @@ func (c08) Cases(tier string) int {
 	if tier == "thorough" {
 		return 250000
 	}
-	return 15000
+	return 45000
 }
 func (c08) RaceCases(tier string) int {
 	if tier == "thorough" {
